@@ -85,10 +85,14 @@ class BaseFiles(Generic[Interface]):
         if if_none_match == "*":
             return True
 
-        if if_none_match.startswith("W/"):
-            if_none_match = if_none_match[2:]
+        for item in if_none_match.split(","):
+            item = item.strip()
+            if item.startswith("W/"):  # weak comparison: the prefix is per entity-tag
+                item = item[2:]
+            if etag == item.strip().strip('"'):
+                return True
 
-        return any(etag == i.strip().strip('"') for i in if_none_match.split(","))
+        return False
 
     def if_modified_since(self, last_modified: float, if_modified_since: str) -> bool:
         try:
